@@ -25,8 +25,9 @@ WroteOf(obs) ==
 (* ground truth of the connections after the step *)
 WkNext(r) ==
     LET wr == WroteOf(r.obs)
-        base == IF r.ev \in {"Register", "Poll"}
-                THEN [wk EXCEPT ![r.obs.wid] = [st |-> IF r.ev = "Register" THEN "idle" ELSE "gone", rev |-> r.args.rev]]
+        base == IF r.ev = "Connect" THEN [wk EXCEPT ![r.obs.wid].st = "conn"]
+                ELSE IF r.ev = "Register" THEN [wk EXCEPT ![r.args.w] = [st |-> "idle", rev |-> r.args.rev]]
+                ELSE IF r.ev = "Poll" THEN [wk EXCEPT ![r.obs.wid] = [st |-> "gone", rev |-> r.args.rev]]
                 ELSE IF r.ev = "Lost" THEN [wk EXCEPT ![r.args.w].st = "gone"]
                 ELSE wk
     IN [w \in W |->
@@ -81,11 +82,15 @@ StepClauses(p, r) ==
               LET after == MsgView(r.st.cluster) \o MsgView(r.obs.written)
                   before == MsgView(p.st.cluster) \o MsgView(r.obs.put)
               IN BagOf(after) = BagOf(before))
+    \cup FailClause("C11.SentOnlyWhileActive",
+           \* the life-cycle bit as it was at the very moment each task message was written
+           \A i \in DOMAIN r.obs.written : r.obs.written[i].active)
     \cup FailClause("C11.NothingWhileInactive",
            (~Active /\ r.ev = "Tick") => (Len(r.obs.written) = 0 /\ Len(r.obs.put) = 0 /\ Len(r.obs.drawn) = 0))
 
 ModelStep(r) ==
-    CASE r.ev = "Register" -> Register(r.args.rev)
+    CASE r.ev = "Register" -> Register(r.args.w, r.args.rev)
+      [] r.ev = "Connect" -> Connect
       [] r.ev = "Poll" -> Poll(r.args.rev)
       [] r.ev = "Lost" -> Lost(r.args.w)
       [] r.ev = "Tick" -> Tick \/ (~Active /\ UNCHANGED <<pend, exec, cluster, idle, fly, phase>>)
